@@ -633,9 +633,14 @@ class TreeSim(taps.Sim):
                 else:
                     d = v
                     num = c.value
-                if abs(d) < TOL:
+                if d == 0:
                     ew = 0.0
                     amb = False
+                elif abs(d) < TOL:
+                    # float residue around the library's zero threshold (1e-16): whether the implementation's own sum fell
+                    # below it when the weights were computed is rounding noise - 0 and value / parent value are both right
+                    ew = 0.0
+                    amb = True
                 else:
                     ew = num / d
                     amb = abs(d) < tol
